@@ -53,3 +53,77 @@ pub proof fn lemma_safe_stays_inside(base: Seq<int>, cs: Seq<path::Component<'st
         assert(base.subrange(0, base.len() as int) =~= base);
     }
 }
+
+// ---- C06, mangled_name: the part of the name before the first NUL, with `\\` read as `/` (host: unix), ordinary components only
+pub open spec fn before_nul(s: Seq<char>) -> Seq<char> {
+    if s.contains('\0') { s.subrange(0, choose|k: int| first_at(s, '\0', k)) } else { s }
+}
+pub open spec fn sep_norm(s: Seq<char>) -> Seq<char> { char_replaced(s, '\\', '/') }
+pub open spec fn normal_only(cs: Seq<path::Component<'static>>) -> Seq<path::Component<'static>>
+    decreases cs.len()
+{
+    if cs.len() == 0 { Seq::empty() } else {
+        let r = normal_only(cs.drop_last());
+        if cs.last() is Normal { r.push(cs.last()) } else { r }
+    }
+}
+pub open spec fn sanitized_components(name: Seq<char>) -> Seq<path::Component<'static>> {
+    normal_only(path::spec_components(path::spec_path_of(sep_norm(before_nul(name)))))
+}
+// a list of ordinary components is relative and never climbs: it is `safe`, so the containment lemma applies to it
+pub proof fn lemma_normal_only_is_ordinary(cs: Seq<path::Component<'static>>)
+    ensures forall|i: int| 0 <= i < normal_only(cs).len() ==> #[trigger] normal_only(cs)[i] is Normal
+    decreases cs.len()
+{
+    if cs.len() > 0 { lemma_normal_only_is_ordinary(cs.drop_last()); }
+}
+pub proof fn lemma_depth_of_ordinary(cs: Seq<path::Component<'static>>, k: int)
+    requires forall|i: int| 0 <= i < cs.len() ==> #[trigger] cs[i] is Normal, 0 <= k <= cs.len()
+    ensures depth_after(cs, k) == k
+    decreases k
+{
+    if k > 0 { lemma_depth_of_ordinary(cs, k - 1); }
+}
+pub proof fn lemma_sanitized_is_safe(name: Seq<char>)
+    ensures safe(sanitized_components(name)),
+            forall|i: int| 0 <= i < sanitized_components(name).len() ==> #[trigger] sanitized_components(name)[i] is Normal,
+{
+    let cs = sanitized_components(name);
+    lemma_normal_only_is_ordinary(path::spec_components(path::spec_path_of(sep_norm(before_nul(name)))));
+    assert forall|k: int| 0 <= k <= cs.len() implies #[trigger] depth_after(cs, k) >= 0 by { lemma_depth_of_ordinary(cs, k); }
+}
+// the fold of file_name_sanitized collects exactly the ordinary components, in order (induction over the fold relation)
+proof fn lemma_fold_prefix<'a, P: Fn(&path::Component<'a>) -> bool, F: Fn(path::PathBuf, path::Component<'a>) -> path::PathBuf>(
+    src: Seq<path::Component<'static>>, pred: P, f: F, init: path::PathBuf, accs: Seq<path::PathBuf>, i: int)
+    requires
+        path::fold_rel(src, pred, f, init, accs), 0 <= i <= src.len(),
+        forall|c: path::Component<'a>, b: bool| pred.ensures((&c,), b) ==> b == (c is Normal),
+        forall|p: path::PathBuf, c: path::Component<'a>, q: path::PathBuf| f.ensures((p, c), q) ==> q.comps() == p.comps().push(c),
+    ensures accs[i].comps() == init.comps() + normal_only(src.subrange(0, i)),
+    decreases i
+{
+    if i == 0 {
+        assert(src.subrange(0, 0) =~= Seq::empty());
+        assert(init.comps() + Seq::<path::Component<'static>>::empty() =~= init.comps());
+    } else {
+        lemma_fold_prefix(src, pred, f, init, accs, i - 1);
+        let pre = src.subrange(0, i);
+        assert(pre.drop_last() =~= src.subrange(0, i - 1));
+        assert(pre.last() == src[i - 1]);
+        assert(accs[(i - 1) + 1] == accs[i]);
+        if src[i - 1] is Normal {
+            assert(init.comps() + normal_only(src.subrange(0, i - 1)).push(src[i - 1]) =~= (init.comps() + normal_only(src.subrange(0, i - 1))).push(src[i - 1]));
+        }
+    }
+}
+pub broadcast proof fn lemma_fold_collects_normal<'a, P: Fn(&path::Component<'a>) -> bool, F: Fn(path::PathBuf, path::Component<'a>) -> path::PathBuf>(
+    src: Seq<path::Component<'static>>, pred: P, f: F, init: path::PathBuf, accs: Seq<path::PathBuf>)
+    requires
+        #[trigger] path::fold_rel(src, pred, f, init, accs),
+        forall|c: path::Component<'a>, b: bool| pred.ensures((&c,), b) ==> b == (c is Normal),
+        forall|p: path::PathBuf, c: path::Component<'a>, q: path::PathBuf| f.ensures((p, c), q) ==> q.comps() == p.comps().push(c),
+    ensures accs.last().comps() == init.comps() + normal_only(src),
+{
+    lemma_fold_prefix(src, pred, f, init, accs, src.len() as int);
+    assert(src.subrange(0, src.len() as int) =~= src);
+}
